@@ -8,6 +8,31 @@ sys.path.insert(0, VERIF)
 from vlib import core  # noqa: E402
 
 
+def escalate_if_modelled_source_changed(prop, tier, seed, rc):
+    """DESIGN.md section 2, step 2: the quick tier found nothing, but source files this property's model
+    mirrors differ from the text the model was last validated against (vlib/anchors.py).  Run the property
+    once more with the thorough budgets and another seed, in a child process bounded by
+    VERIF_ESCALATE_BUDGET_S; its verdict and evidence replace the quick ones.  If the child does not finish
+    in time the quick verdict stands."""
+    if rc != 0 or tier != "quick" or os.environ.get("VERIF_ESCALATE", "1") == "0" or os.environ.get("VERIF_FORCE_ESCALATED"):
+        return rc
+    from vlib import anchors
+    changed = anchors.changed_for(prop)
+    if not changed:
+        return rc
+    import subprocess
+    budget = int(os.environ.get("VERIF_ESCALATE_BUDGET_S", "1500"))
+    core.log("%s: modelled source differs from the validated text (%s): second pass with the thorough budgets, seed %d, at most %d s"
+             % (prop, ", ".join(changed[:6]), seed + 1, budget))
+    env = dict(os.environ, VERIF_ESCALATE="0", VERIF_FORCE_ESCALATED=",".join(changed), VERIF_SEED=str(seed + 1), VERIF_NO_COQCHK="1")
+    try:
+        p = subprocess.run([sys.executable, os.path.abspath(__file__), prop, "--tier", "quick"], env=env, timeout=budget)
+        return p.returncode
+    except subprocess.TimeoutExpired:
+        core.log("%s: the second pass did not finish within %d s; the quick verdict stands" % (prop, budget))
+        return rc
+
+
 def main():
     ap = argparse.ArgumentParser()
     ap.add_argument("prop", nargs="?")
@@ -27,7 +52,8 @@ def main():
     try:
         if a.replay:
             return mod.replay(ctx, a.replay)
-        return mod.run(ctx)
+        rc = mod.run(ctx)
+        return escalate_if_modelled_source_changed(a.prop, tier, seed, rc)
     except Exception:
         # an internal error must not pass silently: report as a broken check
         traceback.print_exc()
